@@ -156,11 +156,37 @@ func (s *store) close() error {
 	return s.ss.Close()
 }
 
-// clear the store
+// clear the store. Like every multi-key command it first locks every record, in key order: a
+// command that holds a key is never cut off from the index under its feet (it could then wait,
+// out of order, for the record a later command creates under the same name), and the flush
+// happens at one instant with respect to every other command.
 func (s *store) clear() error {
-	s.mu.Lock()
+	tx := newTx(s)
+	defer tx.commit()
+	for {
+		records := s.records()
+		for _, m := range records {
+			m.Lock()
+			m.writeable = true
+			tx.lockedMetas = append(tx.lockedMetas, m)
+		}
+		s.mu.Lock()
+		// a key created or replaced since the snapshot was taken is not locked: start over
+		current := s.metadata.Len() == len(records)
+		for _, m := range records {
+			cur, ok := s.metadata.Get(m.key.Name)
+			current = current && ok && cur == m
+		}
+		if current {
+			break
+		}
+		s.mu.Unlock()
+		for _, m := range records {
+			m.commit()
+		}
+		tx.lockedMetas = tx.lockedMetas[:0]
+	}
 	defer s.mu.Unlock()
 	s.metadata.Clear()
-	verifTrace("clear", nil, "", nil, true)
 	return s.ss.Clear()
 }
